@@ -159,7 +159,7 @@ pub fn check_report(report: &J, truths: &[&Truth]) -> Result<(usize, usize), Str
     Ok((f.len(), nmsgs))
 }
 
-fn check_case(doc: &str, files: &[String], evals: &mut u64) -> Result<Option<(usize, usize, usize)>, (String, String)> {
+fn check_case(doc: &str, files: &[String], names: Option<&BTreeSet<String>>, evals: &mut u64) -> Result<Option<(usize, usize, usize)>, (String, String)> {
     let mut truths = vec![];
     for f in files {
         *evals += 1;
@@ -173,6 +173,14 @@ fn check_case(doc: &str, files: &[String], evals: &mut u64) -> Result<Option<(us
         }
     }
     let tr: Vec<&Truth> = truths.iter().collect();
+    // every rule defined in the files is an evaluated rule: the names are known from the generated
+    // programs, independently of the record
+    if let Some(ns) = names {
+        let got: BTreeSet<String> = truths.iter().flat_map(|t| t.statuses.iter().map(|(n, _)| n.rsplit('/').next().unwrap_or(n).to_string())).collect();
+        if got != *ns {
+            return Err((format!("the evaluation record lists the rules {:?} but the files define {:?}", got, ns), "c09:rule-missing-from-record".into()));
+        }
+    }
     // CLI, all rules files against the one data file
     *evals += 1;
     let r = validate_payload(files, &[doc.to_string()], &[], &VOpts::structured(Fmt::Json));
@@ -240,7 +248,8 @@ pub fn replay(case: &J) -> CaseResult {
     let doc = case["doc"].as_str().unwrap_or("");
     let files: Vec<String> = case["rules"].as_array().map(|a| a.iter().map(|x| x.as_str().unwrap_or("").to_string()).collect()).unwrap_or_default();
     let mut e = 0;
-    match check_case(doc, &files, &mut e) {
+    let names: Option<BTreeSet<String>> = case["rule_names"].as_array().map(|a| a.iter().map(|n| n.as_str().unwrap_or("").to_string()).collect());
+    match check_case(doc, &files, names.as_ref(), &mut e) {
         Ok(_) => CaseResult::Pass(Info::default()),
         Err((msg, sig)) => CaseResult::Fail(Failure { msg, sig, case: case.clone() }),
     }
@@ -251,13 +260,15 @@ fn random_case(u: &mut Choices, sz: Size) -> CaseResult {
     let doc_text = doc.to_json();
     let k = *u.pick(&[1usize, 1, 2, 3]);
     let mut files = vec![];
+    let mut names = BTreeSet::new();
     for i in 0..k {
         let mut f = gen_wide_file(u, &doc, sz, true);
         prefix_names(&mut f, &format!("f{}", i));
+        names.extend(f.rules.iter().map(|r| r.name.clone()));
         files.push(print_file(&f));
     }
     let mut evals = 0;
-    match check_case(&doc_text, &files, &mut evals) {
+    match check_case(&doc_text, &files, Some(&names), &mut evals) {
         Ok(None) => CaseResult::Discard("evaluation-error"),
         Ok(Some((nfail, nmsgs, nrules))) => CaseResult::Pass(Info {
             nontrivial: nfail >= 1 && nrules > nfail,
@@ -266,7 +277,7 @@ fn random_case(u: &mut Choices, sz: Size) -> CaseResult {
             evals,
             sample: Some(json!({"doc": doc_text, "rules": files, "fail_rules": nfail, "messages_checked": nmsgs})),
         }),
-        Err((msg, sig)) => CaseResult::Fail(Failure { msg, sig, case: json!({"doc": doc_text, "rules": files}) }),
+        Err((msg, sig)) => CaseResult::Fail(Failure { msg, sig, case: json!({"doc": doc_text, "rules": files, "rule_names": names.iter().collect::<Vec<_>>()}) }),
     }
 }
 
